@@ -860,7 +860,10 @@ spifconf_open_file(spif_charptr_t name)
      * whole file, so we don't do that here. */
     fp = fopen((char *) name, "rt");
     REQUIRE_RVAL(fp != NULL, NULL);
-    fgets((char *) buff, 256, fp);
+    if (!fgets((char *) buff, 256, fp)) {
+        /* Empty file:  no magic string. */
+        *buff = 0;
+    }
     ver_str = spif_str_new_from_ptr(buff);
 
     /* Check for magic string. */
@@ -921,7 +924,10 @@ spifconf_parse_line(FILE * fp, spif_charptr_t buff)
       case '\0':
           SPIFCONF_PARSE_RET();
       case '%':
-          if (!BEG_STRCASECMP(spiftool_get_pword(1, buff + 1), "include ")) {
+          if (!spiftool_get_pword(1, buff + 1)) {
+              /* A '%' with nothing after it is not a directive. */
+              SPIFCONF_PARSE_RET();
+          } else if (!BEG_STRCASECMP(spiftool_get_pword(1, buff + 1), "include ")) {
               spif_charptr_t path;
               FILE *fp;
 
